@@ -9,3 +9,6 @@ func (x *Ctx) internalPrefix(s, p []byte) {}
 func (x *Ctx) internalRune(s []byte, r int64) {}
 func (x *Ctx) internalByte(s []byte, c int64) {}
 func (x *Ctx) internalIndex(s, sub []byte)    {}
+
+// rkPrime: without the internal hooks, the value in the pinned source
+func rkPrime() uint32 { return 16777619 }
